@@ -20,6 +20,8 @@ Decided:
              narrowing; fe32: tight/loose contracts of the ref10 discipline (interval abstract interpretation)
   decode32   fe32 from_bytes == LE(bytes) - 2^255 * bit255 (mod p) as a polynomial identity over the input bytes
   encode     to_packed / to_bytes: reduction identity modulo p with the folded quotients, reduced output digits, bit packing
+  fe-use     32-bit backend: every call site of a field operation anywhere in the crate hands it operands built from at most
+             three TIGHT values without a carry (the contract fe-bounds proves); nobody outside fe32 touches Fe limbs
 Not decided: that the quotient folded back by the canonical reduction is floor(H / p) for every input."""
 import re
 
